@@ -505,6 +505,10 @@ def check_collation(n, res):
 # ----------------------------------------------------------------------------- driver
 def work(task):
     what, kind, n, hists = task
+    if what == "bcat":
+        from mc.checks import c06b
+
+        return c06b.work(hists)
     res = Res()
     for hist in hists:
         n0 = res.n
@@ -558,6 +562,11 @@ def run(ctx):
     for kind in ("fock_pure", "fock_mixed"):
         for i in range(0, len(hs), 2):
             tasks.append(("fock", kind, 3, hs[i : i + 2]))
+    from mc.checks import c06b
+
+    bt = c06b.tasks(quick)
+    tasks = bt + tasks
+    ctx.cov["bosonic_cat_postselection_cases"] = sum(len(t[3]) for t in bt)
     for r in ctx.pmap(work, tasks):
         ctx.add(r)
         if ctx.time_left() < 0:
@@ -577,6 +586,10 @@ def run(ctx):
 
 def replay(case):
     res = Res()
+    if case.get("bosonic_cat"):
+        from mc.checks import c06b
+
+        return c06b.replay(case)
     if case.get("collation"):
         check_collation(case["n"], res)
         return [(s, w) for s, w, c in res.viol if c["modes"] == case["modes"] and c["split"] == case["split"]]
